@@ -99,6 +99,42 @@ class CtorDomain(ereduce.ReduceDomain):
         return super().equal(it, a, b)
 
 
+class MkDomain(CtorDomain):
+    """make_node: the singleton `var` is a structured node"""
+
+    def __init__(self, F):
+        super().__init__(F, tables.ZBDD, "oxidd_rules_zbdd")
+
+    def node_of(self, edge):
+        from tables import NODE_INNER
+        if isinstance(edge, Edge) and edge.node[0] == "S":
+            return Enum(NODE_INNER, [edge.node[1]])
+        return super().node_of(edge)
+
+    def method(self, it, m, e, env):
+        name = m.rsplit("::", 1)[-1]
+        if name == "expect_inner" or name == "unwrap_inner":
+            r = it.recv(e, env)
+            it.args(e, env)
+            from tables import NODE_INNER
+            if isinstance(r, Enum) and r.path == NODE_INNER:
+                return r.args[0]
+            from lib.interp import Panic
+            raise Panic("expect_inner on a terminal")
+        recv = None
+        if name in ("level", "children", "child"):
+            recv = it.recv(e, env)
+            import epick
+            if isinstance(recv, epick.SNode):
+                if name == "level":
+                    return recv.level
+                if name == "children":
+                    return ereduce.IterObj(recv.children)
+                (i,) = it.args(e, env)
+                return recv.children[i]
+        return super().method(it, m, e, env)
+
+
 def lab(v):
     if isinstance(v, Enum) and v.path == OK and v.args:
         return "Ok(%s)" % lab(v.args[0])
@@ -213,6 +249,28 @@ def run(ctx, F, only=None, rule=RULE):
                     if not ok:
                         fails.append("%s (%s): yields %s %s, expected a node at var_to_level(var) with children %r"
                                      % (F.nice(fid), F.where(fid), status, lab(val), tuple(reversed(var_children))))
+        if kname == "zbdd":
+            # make_node(manager, var, hi, lo) = reduce at the level of the singleton `var` with (hi, lo) in order
+            import epick
+            fid = "oxidd_rules_zbdd::make_node"
+            if ctx.anchor(rule, fid, fid in F.hir):
+                found += 1
+                zt = "oxidd_rules_zbdd::ZBDDTerminal::"
+                var = Edge(("S", epick.SNode("v", 4, (T(zt + "Base"), T(zt + "Empty")))))
+                hi, lo = Edge(("N", "hi")), Edge(("N", "lo"))
+                holder = {}
+
+                def mk(oracle):
+                    holder["d"] = MkDomain(F)
+                    return Interp(F, holder["d"], oracle)
+                for trace, (status, val) in enumerate_runs(mk, lambda it: it.call_fn(fid, [Opaque("manager"), var, hi, lo])):
+                    n += 1
+                    v = val.args[0] if status == "ok" and isinstance(val, Enum) and val.path == OK else None
+                    okn = isinstance(v, Edge) and v.node[0] == "NEW" and v.node[1] == 4 and v.node[2] == 4 \
+                        and tuple(v.node[3]) == (hi, lo)
+                    if not okn:
+                        fails.append("%s (%s): make_node(var@4, hi, lo) yields %s %s, expected node(level 4; hi, lo)"
+                                     % (fid, F.where(fid), status, lab(val)))
         ctx.ob(rule, "%s:%s" % (rule, kname), not fails and found >= 2,
                "%s constructors: %s" % (kname, "%d wrong; first: %s" % (len(fails), " || ".join(fails[:3])) if fails else
                                         "%d constructor bodies build the constants / variable nodes they are named for" % found))
